@@ -92,7 +92,7 @@ def derive_seed(seed, *parts):
     return int(h[:12], 16)
 
 
-def hyp_search(strategy, check, col, *, max_examples, seed, shrink=True, attribute=None, stateful_steps=None):
+def hyp_search(strategy, check, col, *, max_examples, seed, shrink=True, attribute=None, stateful_steps=None, post_min=None):
     """Drive `check(case) -> list[(message, bucket)]` with Hypothesis.
 
     Failures attributed to a known finding (attribute(case, message, bucket) -> id) are counted
@@ -133,6 +133,18 @@ def hyp_search(strategy, check, col, *, max_examples, seed, shrink=True, attribu
         t()
     except Violation:
         case, message, bucket = last["f"]
+        if post_min is not None:
+            # bounded structural minimisation: keep the reduced case only if it still fails in the same bucket
+            def still(c, _b=bucket):
+                return any(b == _b and not (attribute and attribute(c, m, b)) for m, b in (check(c) or []))
+
+            try:
+                small = post_min(case, still)
+                msgs = [(m, b) for m, b in (check(small) or []) if b == bucket]
+                if msgs:
+                    case, message = small, msgs[0][0]
+            except Exception:
+                pass
         col.fail(case, message, bucket)
     except hypothesis.errors.Flaky as e:  # non-deterministic oracle: harness problem, not a verdict
         if "f" in last:
